@@ -244,6 +244,9 @@ def admissible_exception(cfg, e):
     return isinstance(e, ValueError) and str(e).startswith('Rank(')
 
 def job(cfg):
+    if cfg['solver'] == 'cpl':
+        from vp.checks import c10_cpl
+        return c10_cpl.job(cfg)
     import z3
     from vp.pysym import sym, prove, alg
     from vp.checks import c01
@@ -436,7 +439,11 @@ def replay_on_build(path):
     return None, 'not reproduced (%s)' % dd.get('outcome')
 
 def replay_main(path):
-    rep, why = replay_on_build(path)
+    if json.load(open(path)).get('cfg', {}).get('solver') == 'cpl':
+        from vp.checks import c10_cpl
+        rep, why = c10_cpl.replay_on_build(path)
+    else:
+        rep, why = replay_on_build(path)
     if rep: print('REPRODUCED on the real build: %s' % rep); return 1
     print(why); return 0
 
@@ -448,7 +455,8 @@ def main(tier):
     from vp import common
     from vp.pysym import loader
     ev = common.Evidence('C10', 'fault_enumeration', tier)
-    cfgs = configs(tier)
+    from vp.checks import c10_cpl
+    cfgs = configs(tier) + c10_cpl.configs(tier)
     for c in cfgs: c['_timeout_ms'] = 10000 if tier == 'quick' else 60000
     results = common.run_jobs('vp.checks.c10', 'job', cfgs)
     known = common.known_findings('C10')
@@ -469,13 +477,14 @@ def main(tier):
         for e in res['errors']: herr.append('%s: %s' % (json.dumps(cfg), e))
         for u in res['unknown']: inconc.append('%s: %s' % (json.dumps(cfg), u))
         for s in res['sat']:
-            key = finding_key(cfg, s['label'])
-            gkey = key.split(':', 1)[0] + ':' + ':'.join(key.split(':')[1:3]) + ':' + key.split(':')[-1]
+            if s.get('prop', 'C10') != 'C10': continue          # C07-tagged obligations of the cpl harness are reported by the C07 check
+            iscpl = cfg['solver'] == 'cpl'
+            key = c10_cpl.finding_key(cfg, s['label']) if iscpl else finding_key(cfg, s['label'])
             if key in seen: seen[key] += 1; continue
             seen[key] = 1
             rp = common.write_replay('C10', json.dumps(cfg, sort_keys=True) + s['label'],
                                      {'property': 'C10', 'cfg': cfg, 'label': s['label'], 'model': s['model']})
-            rep, why = replay_on_build(rp)
+            rep, why = c10_cpl.replay_on_build(rp) if iscpl else replay_on_build(rp)
             if rep is None:
                 herr.append('%s: counterexample for "%s" %s (%s)' % (json.dumps(cfg), s['label'], why, rp))
             elif key in known: known_hits.append((key, known[key]['what']))
@@ -489,12 +498,13 @@ def main(tier):
     ev.cov.update({'evaluations': len(cfgs), 'distinct_nontrivial': reached,
                    'rule': 'one fault plan = (solver, cone structure, start-point mode, failing call (factor #i | solve #j), iteration class k=0 | 1<=k<maxiters); non-trivial = the injected failure is reached on at least one explored path; within a plan all data, iterate, tolerances, k and the results of the non-failing KKT solves are solver variables',
                    'paths': paths, 'outcomes': outcomes,
-                   'functions_encoded': ['coneprog.conelp', 'coneprog.coneqp (incl. no-inequality shortcut)'],
-                   'source_hash': loader.src_hash(['coneprog', 'misc']),
+                   'functions_encoded': ['coneprog.conelp', 'coneprog.coneqp (incl. no-inequality shortcut)', 'cvxprog.cpl (factorisation failure at an arbitrary iteration, restore-and-retry path, user F a memoised symbolic stub)'],
+                   'source_hash': loader.src_hash(['coneprog', 'cvxprog', 'misc']),
                    'bounds': 'fault at factor call #1 or solve call #1..#3 of the run; cone structures %s; n=2, p=1; refinement=0; scaling W arbitrary (compute_scaling/update_scaling stubbed)' % json.dumps(DIMS_QUICK if tier == 'quick' else DIMS_THOROUGH)})
     ev.assumptions += ['loop invariant at the head of the iteration in which the fault occurs (tau,kappa>0; gap=<s,z>/tau^2; s,z interior)',
                        'non-failing KKT solves return arbitrary vectors; the scaling handed to the KKT solver is an arbitrary dictionary of the right shape',
-                       'cpl/cp (restore-and-retry, domain backtracking) not covered by this check', 'exact real arithmetic']
+                       'cpl: fault at the in-loop factorisation call (and at the retry); the saved state of the relaxed line search satisfies its invariant iff relaxed_iters >= 1 (the only situation in which cpl has written it), otherwise it is arbitrary; failures of the solves inside f4 and the domain backtracking of the line search are not covered',
+                       'exact real arithmetic']
     return common.finish(ev, violations, known_hits, herr, inconc)
 
 if __name__ == '__main__':
